@@ -3,7 +3,7 @@ import ast
 
 from .. import poly
 from ..poly import Poly
-from ..interp import ga, sa, Arr, Pose, Obj, ClassRef, VFile, PathRaise, PI
+from ..interp import ga, gp, sa, Arr, Pose, Obj, ClassRef, VFile, PathRaise, PI
 from ..algebra import custom_edge, run_obligation, run_tasks, record, ObFail, CDIM
 from ..g2o import VOCABULARY, eq_poly, same_vertex, same_edge, same_param, mark_int, no_int_through_float
 from .c13 import read_line, READERS
@@ -190,7 +190,7 @@ def file_obligation(variant):
             order.append((tag, vals))
         it.vfs["in.g2o"] = VFile("in.g2o", lines)
         g = it.call_classmethod(ClassRef("Graph"), "from_g2o", ["in.g2o"])
-        vs, es, ps = ga(g, "_vertices", None), ga(g, "_edges", None), ga(g, "_g2o_params", None)
+        vs, es, ps = gp(g, "_vertices"), gp(g, "_edges"), gp(g, "_g2o_params")
         want_v = [(t, v) for t, v in order if t.startswith("VERTEX")]
         want_e = [(t, v) for t, v in order if t.startswith("EDGE")]
         if len(vs) != len(want_v):
@@ -250,7 +250,7 @@ def custom_types_obligation():
                  make_line(it, "EDGE_SE2", [ida, idb] + [Poly.var("w%d" % i) for i in range(9)], " ", "\n")]
         it.vfs["c.g2o"] = VFile("c.g2o", lines)
         g = it.call_classmethod(ClassRef("Graph"), "from_g2o", ["c.g2o"], dict(custom_edge_types=types))
-        es = ga(g, "_edges", None)
+        es = gp(g, "_edges")
         tags = [ga(e, "custom_tag", None) for e in es]
         want = ["CUSTOM_B", "CUSTOM_A", "CUSTOM_B", "EDGE_SE2"]
         if tags != want:
@@ -282,12 +282,12 @@ def loaders_obligation():
             g = it.call_function(it.pkg.funcs[name], ["a.g2o"])
             if not isinstance(g, Obj) or g.cls != "Graph":
                 raise ObFail("%s returns %r" % (name, g))
-            for a, b in zip(ga(g, "_vertices"), ga(ref, "_vertices")):
+            for a, b in zip(gp(g, "_vertices"), gp(ref, "_vertices")):
                 same_vertex(it, a, b, "%s vs Graph.from_g2o" % name)
-            for a, b in zip(ga(g, "_edges"), ga(ref, "_edges")):
+            for a, b in zip(gp(g, "_edges"), gp(ref, "_edges")):
                 same_edge(it, a, b, "%s vs Graph.from_g2o" % name)
-            if len(ga(g, "_vertices")) != 2 or len(ga(g, "_edges")) != 1:
-                raise ObFail("%s loads %d vertices / %d edges from a file with 2 / 1" % (name, len(ga(g, "_vertices")), len(ga(g, "_edges"))))
+            if len(gp(g, "_vertices")) != 2 or len(gp(g, "_edges")) != 1:
+                raise ObFail("%s loads %d vertices / %d edges from a file with 2 / 1" % (name, len(gp(g, "_vertices")), len(gp(g, "_edges"))))
         return dict(loaders=loaders)
     return lambda pkg: run_obligation(pkg, fn)
 
